@@ -74,6 +74,7 @@ static inline _Bool c_fix_snap(const struct CodeHolder* self, const struct Fixup
   if (g->section_id != f->section_id || g->label_or_reloc_id != f->label_or_reloc_id || g->offset != f->offset || g->rel != f->rel) return 0;
   return word == c_le64(SECP(self, f->section_id)->_buffer._data + f->offset + f->format._value_offset, f->format._value_size);
 }
+#ifdef HAVE_STRUCT_RelocEntry   /* the bind_label-specific part (units that do not touch relocation entries skip it) */
 static inline _Bool c_bind_snap(const struct CodeHolder* self) {
   if (g_le_sec0 == INVALID_ID && g_nfix >= 1 && !c_fix_snap(self, FXHEAD(self), &g_f0, g_word0[0])) return 0;
   if (g_le_sec0 == INVALID_ID && g_nfix == 2 && !c_fix_snap(self, FXHEAD(self)->next, &g_f1, g_word0[1])) return 0;
@@ -127,8 +128,10 @@ static inline int c_bind_post(const struct CodeHolder* self, const struct Label*
   return 0;
 }
 
+#endif
 #define FRESH_SEC(self, i) __CPROVER_requires(__CPROVER_is_fresh(SECP(self, i), sizeof(struct Section))) \
   __CPROVER_requires(__CPROVER_is_fresh(SECP(self, i)->_buffer._data, VERIF_BUF))
+#ifdef HAVE_STRUCT_RelocEntry
 #define CONTRACT_CodeHolder_bind_label \
   __CPROVER_requires(__CPROVER_is_fresh(self, sizeof(*self))) \
   __CPROVER_requires(__CPROVER_is_fresh(label, sizeof(*label))) \
@@ -148,4 +151,5 @@ static inline int c_bind_post(const struct CodeHolder* self, const struct Label*
   __CPROVER_assigns(g_nfix >= 1: __CPROVER_object_whole(FXHEAD(self))) \
   __CPROVER_assigns(g_nfix == 2: __CPROVER_object_whole(FXHEAD(self)->next)) \
   __CPROVER_ensures(c_bind_post(self, label, to_section_id, to_offset, __CPROVER_return_value) == 0)
+#endif
 #endif
